@@ -3,7 +3,8 @@
 //! Request: `C15 hist <op> …`   one JwkMemStore and one KeyIdMemstore, ops in order
 //!   `g:<kt>:<alg>`                    generate; kt = ed | bls | x (unknown), alg = EdDSA | ES256 | X (unknown)
 //!   `i:<fam>:<priv>:<alg>:<dok>:<v>`  insert a JWK; fam = ed | e448 | x255 | bls | p256 | oct; priv 0|1 (`d` present);
-//!                                     alg = ~ | EdDSA | ES256 | junk; dok 0|1 (`d` decodes to 32 bytes); v = 1|2: which
+//!                                     alg = ~ | EdDSA | ES256 | junk; dok: `d` is 1 the 32-byte secret / 0 three bytes /
+//!                                     2 secret followed by the public key (64 bytes) / 3 33 bytes; v = 1|2: which
 //!                                     of two fixed Ed25519 key pairs (RFC 8037 A.1, RFC 8032 test 2)
 //!   `s:<n>:<data>:<fam>:<alg>`        sign `data` with the n-th key id handed out (99: a key id never handed out); the
 //!                                     public key argument has the given family and alg (for `ed` the key's own public JWK)
@@ -44,6 +45,22 @@ const X2_HEX: &str = "3d4017c3e843895a92b70aa74d1b7ebc9c982ccf2ec4968cc0cd55f12a
 fn unhex(s: &str) -> Vec<u8> {
   (0..s.len() / 2).map(|i| u8::from_str_radix(&s[2 * i..2 * i + 2], 16).unwrap()).collect()
 }
+fn crate_b64_dec(t: &str) -> Vec<u8> {
+  const T: &[u8] = b"ABCDEFGHIJKLMNOPQRSTUVWXYZabcdefghijklmnopqrstuvwxyz0123456789-_";
+  let vals: Vec<u32> = t.bytes().filter_map(|c| T.iter().position(|x| *x == c).map(|p| p as u32)).collect();
+  let mut out = vec![];
+  for ch in vals.chunks(4) {
+    let n = ch.iter().enumerate().fold(0u32, |a, (i, v)| a | v << (18 - 6 * i as u32));
+    out.push((n >> 16) as u8);
+    if ch.len() > 2 {
+      out.push((n >> 8) as u8);
+    }
+    if ch.len() > 3 {
+      out.push(n as u8);
+    }
+  }
+  out
+}
 fn pair(v: u32) -> (String, String) {
   if v == 1 {
     (D1.to_string(), X1.to_string())
@@ -52,9 +69,16 @@ fn pair(v: u32) -> (String, String) {
   }
 }
 
-fn jwk_json(fam: &str, private: bool, alg: &str, dok: bool, v: u32) -> String {
+/// dok: 1 = `d` is the 32-byte secret; 0 = three bytes; 2 = 64 bytes (secret followed by the public key); 3 = 33 bytes
+fn jwk_json(fam: &str, private: bool, alg: &str, dok: u32, v: u32) -> String {
   let (d, x) = pair(v);
-  let d = if dok { d } else { "AAAA".to_string() };
+  let raw = |t: &str| crate_b64_dec(t);
+  let d = match dok {
+    1 => d,
+    2 => b64(&[raw(&d), raw(&x)].concat()),
+    3 => b64(&[raw(&d), vec![7u8]].concat()),
+    _ => "AAAA".to_string(),
+  };
   let mut members: Vec<String> = match fam {
     "ed" => vec!["\"kty\":\"OKP\"".into(), "\"crv\":\"Ed25519\"".into(), format!("\"x\":\"{}\"", x)],
     "e448" => vec!["\"kty\":\"OKP\"".into(), "\"crv\":\"Ed448\"".into(), format!("\"x\":\"{}\"", x)],
@@ -156,7 +180,7 @@ pub fn run(args: &[&str]) -> String {
       }
       ["i", fam, pr, alg, dok, v] => (|| {
         let v: u32 = v.parse().ok()?;
-        let j = Jwk::from_json(&jwk_json(fam, *pr == "1", alg, *dok == "1", v)).ok()?;
+        let j = Jwk::from_json(&jwk_json(fam, *pr == "1", alg, dok.parse().ok()?, v)).ok()?;
         Some(match rt.block_on(store.insert(j.clone())) {
           Ok(id) => {
             let n = issued.len() as u32 + 1;
@@ -164,7 +188,8 @@ pub fn run(args: &[&str]) -> String {
             if pubj.alg().is_none() {
               pubj.set_alg("EdDSA");
             }
-            issued.push((id, pubj, if *dok == "1" { 100 + v } else { 0 }));
+            // the key pair a stored key verifies under is that of its PUBLIC part, whatever `d` holds
+            issued.push((id, pubj, 100 + v));
             format!("ok:{}", n)
           }
           Err(e) => format!("err:{}", kerr(e.kind(), &e.to_string())),
@@ -175,9 +200,9 @@ pub fn run(args: &[&str]) -> String {
         let id = issued.get(n.wrapping_sub(1)).map(|x| x.0.clone()).unwrap_or_else(|| unknown.clone());
         let msg = format!("data{}", data).into_bytes();
         let mut pk = if *fam == "ed" {
-          issued.get(n.wrapping_sub(1)).map(|x| x.1.clone()).unwrap_or_else(|| Jwk::from_json(&jwk_json("ed", false, "~", true, 1)).unwrap())
+          issued.get(n.wrapping_sub(1)).map(|x| x.1.clone()).unwrap_or_else(|| Jwk::from_json(&jwk_json("ed", false, "~", 1, 1)).unwrap())
         } else {
-          Jwk::from_json(&jwk_json(fam, false, "~", true, 1)).ok()?
+          Jwk::from_json(&jwk_json(fam, false, "~", 1, 1)).ok()?
         };
         // the alg of the public key argument
         let pj = {
@@ -261,10 +286,14 @@ pub fn run(args: &[&str]) -> String {
           .map(|i| {
             let kids = kids.clone();
             let barrier = barrier.clone();
+            // everything but the call itself happens before the barrier, so that the calls really collide
+            let dg = digest(dgn);
+            let kid = KeyId::new(format!("kid{}", 201 + i));
             std::thread::spawn(move || {
               let rt = tokio::runtime::Builder::new_current_thread().build().unwrap();
+              let fut = kids.insert_key_id(dg, kid);
               barrier.wait();
-              rt.block_on(kids.insert_key_id(digest(dgn), KeyId::new(format!("kid{}", 201 + i)))).is_ok()
+              rt.block_on(fut).is_ok()
             })
           })
           .collect();
@@ -307,7 +336,7 @@ pub fn gen(thorough: bool, seed: u64, out: &mut impl Write) {
   for fam in ["ed", "e448", "x255", "bls", "p256", "oct"] {
     for pr in [0, 1] {
       for alg in ["~", "EdDSA", "ES256", "junk"] {
-        for dok in [0, 1] {
+        for dok in [0, 1, 2, 3] {
           writeln!(out, "C15 hist i:{}:{}:{}:{}:1 e:1 s:1:5:ed:EdDSA d:1 e:1", fam, pr, alg, dok).unwrap();
         }
       }
@@ -355,7 +384,7 @@ pub fn gen(thorough: bool, seed: u64, out: &mut impl Write) {
           let fam = *r.pick(&["ed", "ed", "e448", "x255", "bls", "p256", "oct"]);
           let pr = *r.pick(&[1, 1, 0]);
           let alg = *r.pick(&["EdDSA", "EdDSA", "~", "ES256", "junk"]);
-          let dok = *r.pick(&[1, 1, 0]);
+          let dok = *r.pick(&[1, 1, 1, 0, 2, 3]);
           if fam == "ed" && pr == 1 && alg == "EdDSA" {
             issued += 1;
           }
